@@ -16,7 +16,8 @@ import signatures as sg
 from enc import cbool, crows, ctree, jsonable
 
 THEOREMS = ["C03_backtrack_sound", "C03_apply_with_options_sound", "C03_result_engine",
-            "C03_iteration_programs_with_options_denote_their_specification"]
+            "C03_iteration_programs_with_options_denote_their_specification",
+            "C03_join_backtrack_sound", "C03_join_with_options_sound"]
 HDR = "From DR Require Import Model.CheckBack.\nOpen Scope Z_scope.\n"
 
 
